@@ -24,7 +24,7 @@ from ..world import Violation, HarnessError
 
 ID = "C06"
 LEVEL = "exploration"
-BUDGET = {"quick": 170, "thorough": 1800}
+BUDGET = {"quick": 300, "thorough": 1800}
 JOB_TIMEOUT = 300
 MINIMISE_S = {"quick": 60, "thorough": 240}
 RULE = ("a case = one program: generated preparation circuit (entangled / displaced / mixed; bosonic: cat, Fock and GKP inputs; Fock: "
@@ -59,14 +59,14 @@ def warm(tier):
 def batches(tier):
     if tier == "quick":
         return [
-            {"name": "dyne-gaussian", "runs": 1600, "weight": 2},
-            {"name": "dyne-bosonic", "runs": 1200, "weight": 3, "seed_offset": 100000},
-            {"name": "xsel", "runs": 700, "weight": 2, "seed_offset": 200000},
-            {"name": "fock-count", "runs": 500, "weight": 3, "seed_offset": 300000},
-            {"name": "fock-hom", "runs": 96, "weight": 4, "seed_offset": 400000},
-            {"name": "gauss-count", "runs": 600, "weight": 1, "seed_offset": 500000},
-            {"name": "collation", "runs": 900, "weight": 2, "seed_offset": 600000},
-            {"name": "native-rng", "runs": 200, "weight": 1, "seed_offset": 700000},
+            {"name": "dyne-gaussian", "runs": 3200, "weight": 2},
+            {"name": "dyne-bosonic", "runs": 2400, "weight": 3, "seed_offset": 100000},
+            {"name": "xsel", "runs": 1400, "weight": 2, "seed_offset": 200000},
+            {"name": "fock-count", "runs": 1000, "weight": 3, "seed_offset": 300000},
+            {"name": "fock-hom", "runs": 192, "weight": 4, "seed_offset": 400000},
+            {"name": "gauss-count", "runs": 1200, "weight": 1, "seed_offset": 500000},
+            {"name": "collation", "runs": 1800, "weight": 2, "seed_offset": 600000},
+            {"name": "native-rng", "runs": 400, "weight": 1, "seed_offset": 700000},
         ]
     return [
         {"name": "dyne-gaussian", "runs": 40000, "weight": 2},
@@ -209,6 +209,7 @@ def gen_fock(r, seed, hbar, what):
         s["pick"] = r.choice(["random", "rarest", "likeliest"])
         s["select"] = [True for _ in ms] if r.random() < 0.3 else None  # the Fock backend accepts only fully numeric select lists
         s["u"] = round(r.random(), 6)
+        s["dark"] = [rnd(r, 0.1, 1.5) for _ in ms] if (s["select"] is None and r.random() < 0.3) else None
     else:
         s["mode"] = r.randrange(n)
         s["phi"] = r.choice([0.0, rnd(r, -3, 3), rnd(r, -3, 3)])
@@ -850,6 +851,11 @@ def exec_fock_count(script, w):
 
     def handler(name, args, kwargs, native):
         cur = ctx["cur"]
+        if name == "poisson" and script.get("dark"):
+            lam = np.asarray(args[0], dtype=float).ravel().tolist()
+            shape = args[1] if len(args) > 1 else kwargs.get("size")
+            ctx["poisson"] = ctx.get("poisson", []) + [(lam, tuple(shape) if shape is not None else None)]
+            return np.array([[10 * (j + 1) for j in range(len(ms))]])
         if cur is None or name != "choice":
             return fallback(name, args, kwargs, native)
         sel = cur["select"] if cur["select"] is not None else [None] * len(cur["modes"])
@@ -900,6 +906,8 @@ def exec_fock_count(script, w):
             best = np.unravel_index(int(np.argmax(pm)), pm.shape)
             sel = [int(best[sorted(ms).index(m)]) if s else None for m, s in zip(ms, selspec)]
             kw["select"] = sel
+        if script.get("dark"):
+            kw["dark_counts"] = script["dark"]
         mop = {"op": "MeasureFock", "m": ms, "kw": kw, "fresh": True}
         prog = build_program({"n": n, "ops": ops + [mop]})
         eng = simenv.engine("fock", {"cutoff_dim": D, "pure": script["pure"]})
@@ -912,7 +920,16 @@ def exec_fock_count(script, w):
         if not w.violations:
             w.violation("collation", "no-measurement-event", None, feats)
         return
-    oc = ctx["done"][-1]["outcome"]
+    oc = dict(ctx["done"][-1]["outcome"])
+    if script.get("dark"):
+        # dark counts: Poisson(dark_counts) handed over aligned with the measured register order, one draw per (shot, measured mode)
+        pc = ctx.get("poisson", [])
+        if len(pc) != 1 or not np.allclose(pc[0][0], script["dark"]) or pc[0][1] != (1, len(ms)):
+            w.violation("born", "dark-count-distribution", {"poisson_calls": pc, "dark_counts": script["dark"], "measured_order": ms}, feats)
+            return
+        for j, m in enumerate(ms):
+            oc[m] += 10 * (j + 1)
+        w.probes["fock_dark_counts"] += 1
     cols = sorted(ms)
     got = np.asarray(res.samples)
     if got.shape != (1, len(cols)) or [int(v) for v in got[0]] != [oc[m] for m in cols]:
